@@ -42,13 +42,29 @@ def _alarm(signum, frame):
     raise Timeout()
 
 
+_shared_lexer = None
+
+
 def tokens_of(text):
+    global _shared_lexer
     Lexer = sut.load_lexer()
+
+    if _shared_lexer is None:
+        _shared_lexer = Lexer()
+
     old = signal.signal(signal.SIGALRM, _alarm)
     signal.alarm(WATCHDOG_S)
 
     try:
-        return list(Lexer().get_tokens_unprocessed(text)), None
+        fresh = list(Lexer().get_tokens_unprocessed(text))
+        # a lexer object that has already tokenised other texts must give
+        # the same tokens
+        reused = list(_shared_lexer.get_tokens_unprocessed(text))
+
+        if reused != fresh:
+            return fresh, 'reuse'
+
+        return fresh, None
     except Timeout:
         return None, 'timeout'
     finally:
@@ -87,6 +103,11 @@ def run_any(case, st):
                      ('<50' if len(text) < 50 else '<500' if len(text) < 500
                       else '500+')])
     toks, err = tokens_of(text)
+
+    if err == 'reuse':
+        st.violation('tokens-depend-on-lexer-history',
+                     'a reused lexer object tokenises differently', case)
+        return
 
     if err:
         st.violation('no-termination',
@@ -182,6 +203,11 @@ def run_writer_file(case, st):
         return
 
     toks, err = tokens_of(text)
+
+    if err == 'reuse':
+        st.violation('tokens-depend-on-lexer-history',
+                     'a reused lexer object tokenises differently', case)
+        return
 
     if err:
         st.violation('no-termination', 'writer file of %d characters'
